@@ -26,6 +26,7 @@ type Env struct {
 	bound      map[string]CV
 	depth      int
 	atCallSite bool
+	paramNames map[string]bool
 }
 
 func (m *Machine) baseEnv(c *Config) *Env {
@@ -33,9 +34,11 @@ func (m *Machine) baseEnv(c *Config) *Env {
 	if m.cur.fc != nil {
 		env.lets = m.cur.fc.Lets
 	}
+	env.paramNames = map[string]bool{}
 	for n, v := range m.cur.params {
 		t := m.cur.ptypes[n]
 		env.vars[n] = CV{V: v, Signed: t != nil && isSigned(t), Typ: t}
+		env.paramNames[n] = true
 	}
 	return env
 }
@@ -84,7 +87,7 @@ func (m *Machine) everr(format string, a ...interface{}) {
 var ghostSorts = map[string]Sort{
 	"@in": SBytes, "@pos": SBV64, "@out": SStrm, "@W": SBool, "@E": SBool, "@buf": SStrm, "@rd": SStrm,
 	"@nwrites": SBV64, "@dyncalls": SBV64, "@rset": SBV64,
-	"@refs": SBV64, "@declared": SBV64, "@tr": SStrm, "@opens": SBV64, "@clashes": SBV64, "@lastwriter": SBV64, "@startcls": SBV64, "@startrefs": SBV64, "@defs": SBV64, "@depth": SBV64, "@alloc": SBV64, "@nread": SBV64,
+	"@refs": SBV64, "@declared": SBV64, "@tr": SStrm, "@opens": SBV64, "@clashes": SBV64, "@lastwriter": SBV64, "@startcls": SBV64, "@nvals": SBV64, "@selfregs": SBV64, "@lastreader": SBV64, "@dstartcls": SBV64, "@dstartrefs": SBV64, "@dstarttyps": SBV64, "@startrefs": SBV64, "@defs": SBV64, "@depth": SBV64, "@alloc": SBV64, "@nread": SBV64,
 }
 
 func (m *Machine) ghost(st *State, name string) Value {
@@ -144,6 +147,12 @@ func (m *Machine) ev(env *Env, x *Expr) CV {
 			if _, isVar := env.vars[id.Name]; !isVar {
 				if _, isB := env.bound[id.Name]; !isB {
 					full := id.Name + "." + x.Name
+					switch full {
+					case "io.EOF":
+						return CV{V: Sym("err.EOF", SErr)}
+					case "io.ErrUnexpectedEOF":
+						return CV{V: Sym("err.UnexpectedEOF", SErr)}
+					}
 					if fn, ok := m.prelude.Funcs[full]; ok && len(fn.Params) == 0 {
 						return CV{V: Sym(fn.Name, fn.Ret), Signed: true}
 					}
